@@ -308,9 +308,9 @@ def worker(arg):
 
 def check(tier, seed):
     t = pc.trees("plain", "san")
-    n = 300 if tier == "quick" else 4000
-    nsan = 30 if tier == "quick" else 300
-    ncomp = 4 if tier == "quick" else 48
+    n = 300 if tier == "quick" else 1500
+    nsan = 30 if tier == "quick" else 150
+    ncomp = 4 if tier == "quick" else 16
     res = Result("exploration")
     res.rule = RULE
     base = seed * 1000000 + (0 if tier == "quick" else 50000) + 240000
